@@ -91,9 +91,11 @@ Definition available_balance (bal minbal : N) : N :=
 
 Inductive ppres := PPOk (amount : N) | PPErrBonus | PPPanic.
 
-(* proposerPayout: NewPercent(pct).DivvyAlgos(fees) (panics on overflow, only possible for
-   pct > 100), OAddA bonus, MinA with the sink's available balance *)
+(* proposerPayout: NewPercent(pct) = NewFraction(pct, 100) panics on an improper fraction
+   (pct > 100, a misconfiguration); DivvyAlgos(fees) (panics on overflow, impossible for a
+   proper fraction), OAddA bonus, MinA with the sink's available balance *)
 Definition proposer_payout (pct fees bonus sinkBal sinkMin : N) : ppres :=
+  if 100 <? pct then PPPanic else
   match divvy pct 100 fees with
   | None => PPPanic
   | Some (incentive, _) =>
